@@ -63,20 +63,30 @@ inductive CallOut where
 /-- state: the names accumulated in the package-level type system -/
 abbrev Registry := List Nat
 
-/-- `perCall = true`: inference uses a fresh type system per call (the repaired design);
-    `false`: the code as it is — `TypeSystem.Accumulate` panics on a duplicate name. -/
-def bindStep (perCall : Bool) (reg : Registry) : Call → Registry × CallOut
+/-- How inference treats the package-level type system:
+    `perCall`    — a fresh type system per call (no shared state at all);
+    `memo`       — the code as it is now: the schema type inferred for a Go type is remembered and reused; a Go type is
+                   accumulated into the shared type system once;
+    `accumulate` — the code of the pinned commit: every inference accumulates, and `TypeSystem.Accumulate` panics on
+                   a name it already holds (kept to state the finding and to classify a regression). -/
+inductive Mode where
+  | perCall | memo | accumulate
+  deriving DecidableEq, Repr
+
+def bindStep (m : Mode) (reg : Registry) : Call → Registry × CallOut
   | .explicit g s => (reg, .ok g s)
   | .inferred g =>
-    if perCall then (reg, .ok g g)
-    else if reg.contains g then (reg, .panic) else (g :: reg, .ok g g)
+    match m with
+    | .perCall => (reg, .ok g g)
+    | .memo => if reg.contains g then (reg, .ok g g) else (g :: reg, .ok g g)
+    | .accumulate => if reg.contains g then (reg, .panic) else (g :: reg, .ok g g)
 
-def bindRun (perCall : Bool) (reg : Registry) : List Call → List CallOut
+def bindRun (m : Mode) (reg : Registry) : List Call → List CallOut
   | [] => []
-  | c :: cs => let (reg', o) := bindStep perCall reg c; o :: bindRun perCall reg' cs
+  | c :: cs => let (reg', o) := bindStep m reg c; o :: bindRun m reg' cs
 
 /-- the answer of a call made alone in a fresh process -/
-def single (c : Call) : CallOut := (bindStep false [] c).2
+def single (c : Call) : CallOut := (bindStep .accumulate [] c).2
 
 end Bind
 end Ipld
